@@ -342,7 +342,7 @@ def r3d_memo_context(ctx):
         for i in muts:
             for bb, c in f.calls():
                 res = c.get("res") or ""
-                if c["args"] and _derives(f, c["args"][0], i) and re.search(r"::(contains|get|len|is_empty|iter)\b", res):
+                if c["args"] and _derives(f, c["args"][0], i) and re.search(r"::(contains|get|len|is_empty|iter)$", res):
                     bad.append((f.local_name(i), res.split("::")[-1]))
         if bad:
             r.violate(key, "%s memoises its result in `%s` but the result depends on context parameter(s) %s" % (fid, m, sorted(set(bad))))
@@ -358,7 +358,7 @@ def r3d_memo_context(ctx):
                 g = ctx.bin.fns[gid]
                 for i in [i for i in range(1, g.argc + 1) if g.local_ty(i).startswith("&mut ")]:
                     reads = sorted({(c.get("res") or "").split("::")[-1] for bb, c in g.calls()
-                                    if c["args"] and _derives(g, c["args"][0], i) and re.search(r"::(contains|get|len|is_empty|iter)\b", c.get("res") or "")})
+                                    if c["args"] and _derives(g, c["args"][0], i) and re.search(r"::(contains|get|len|is_empty|iter)$", c.get("res") or "")})
                     key2 = "R3d-iii|%s|%s" % (m, gid)
                     if reads:
                         r.violate(key2, "%s (computing the result memoised in `%s`) consults context parameter `%s` (%s)" % (gid, m, g.local_name(i), reads))
